@@ -61,3 +61,26 @@ def variants_generic(rng):
             return [a + 1, max(0, a - 1)]
         return []
     return f
+
+
+def special_bytes(rng, n, like=None):
+    """n bytes with structure: all zero / all 0xFF / one repeated byte / a repeated 8- or 16-byte block /
+    a copy of (the start of) `like` / 0x80-then-zeros tail / random"""
+    k = rng.randrange(8)
+    if n == 0:
+        return b""
+    if k == 0:
+        return bytes(n)
+    if k == 1:
+        return b"\xff" * n
+    if k == 2:
+        return bytes([rng.randrange(256)]) * n
+    if k == 3:
+        blk = rng.randbytes(rng.choice((8, 16)))
+        return (blk * (n // len(blk) + 1))[:n]
+    if k == 4 and like:
+        return (bytes(like) * (n // len(like) + 1))[:n]
+    if k == 5:
+        z = rng.randrange(0, min(n, 16))
+        return rng.randbytes(n - z - 1) + b"\x80" + bytes(z)
+    return rng.randbytes(n)
